@@ -216,9 +216,9 @@ func forDirected5(g *vlib.G, quickStep, thoroughStep uint32, f func(key string, 
 }
 
 // plan5 is the realisation plan of the 5-node digraph sweeps: two
-// realisations per graph in quick, all twelve in thorough. dir-flow5 covers
-// all 2^20 graphs in both tiers, dir-intervals5 a quarter and dir-topo5 an
-// eighth of them in quick and all in thorough.
+// realisations per graph in quick, all twelve in thorough. In quick
+// dir-flow5 covers a quarter, dir-intervals5 an eighth and dir-topo5 a
+// sixteenth of the 2^20 graphs; thorough covers all of them.
 func plan5(g *vlib.G, mask uint32) []combo {
 	if g.Thorough() {
 		return allCombos
@@ -226,27 +226,27 @@ func plan5(g *vlib.G, mask uint32) []combo {
 	return twoCombos(mask)
 }
 
-// genDirFlow5 extends the dominator checks to all directed graphs on 5 nodes
+// genDirFlow5 extends the dominator checks to the directed graphs on 5 nodes
 // with root 0 (beyond the declared <=4 bound: the interesting dominator and
 // interval shapes need five nodes).
 func genDirFlow5(g *vlib.G) {
-	forDirected5(g, 1, 1, func(key string, s gspec) {
+	forDirected5(g, 4, 1, func(key string, s gspec) {
 		plan := plan5(g, s.mask)
 		g.Case(key, func(t *vlib.T) { dirFlowCase(t, "dir-flow5", key, s, 0, false, plan) })
 	})
 }
 
 func genDirIntervals5(g *vlib.G) {
-	forDirected5(g, 4, 1, func(key string, s gspec) {
+	forDirected5(g, 8, 1, func(key string, s gspec) {
 		plan := plan5(g, s.mask)
 		g.Case(key, func(t *vlib.T) { dirFlowCase(t, "dir-intervals5", key, s, 0, true, plan) })
 	})
 }
 
 // genDirTopo5 extends the SCC / topological sort / cycle enumeration checks
-// to directed graphs on 5 nodes (quick: a fixed eighth, thorough: all).
+// to directed graphs on 5 nodes (quick: a fixed sixteenth, thorough: all).
 func genDirTopo5(g *vlib.G) {
-	forDirected5(g, 8, 1, func(key string, s gspec) {
+	forDirected5(g, 16, 1, func(key string, s gspec) {
 		plan := plan5(g, s.mask)
 		g.Case(key, func(t *vlib.T) { dirTopoCase(t, "dir-topo5", key, s, plan) })
 	})
@@ -263,7 +263,12 @@ func undPlan(g *vlib.G, s *gspec) []combo {
 }
 
 func genUndTopo(g *vlib.G) {
+	tomita := vlib.Env("VERIF_CONFIG", "default") != "default"
 	forUndirected(g, 6, func(key string, s gspec) {
+		// quick tier, tomita configuration: the 6-node graphs with an even edge mask.
+		if s.n == 6 && tomita && !g.Thorough() && s.mask%2 == 1 {
+			return
+		}
 		plan := undPlan(g, &s)
 		g.Case(key, func(t *vlib.T) {
 			s := s
